@@ -3,6 +3,7 @@ import BbRe.Spec.ByteFile
 import BbRe.Lemmas.FilePoolRefine
 import BbRe.Lemmas.FilePoolAllocSpec
 import BbRe.Lemmas.FilePoolSeek3
+import BbRe.Lemmas.FilePoolHistory2
 /-!
 # C15 (file half) — independent sparse files, sectors conserved
 
@@ -374,6 +375,84 @@ theorem file_refines_bytes_seek (c : Cfg) (hss : 1 ≤ c.ss) (ops : List (Op × 
   · obtain ⟨j, e1, e2, e3, e4, e5⟩ := s3 hd
     exact ⟨j, by rw [hcfg, e1], e2, e3, e4, e5⟩
 
+/-! ## history-level refinement -/
+
+/-- **`file_refines_bytes`** (history level).  Run the model and the per-file byte-array
+specification side by side over *any* history — any number of files, any allocator answers the
+allocator contract admits, any fault oracle — that is well-formed (`hwf`: every
+`NewFile(holeSource, size)` gets a hole source without data at or beyond `size`).  Then the
+abstraction `absFiles` (the list of the pool's files as byte arrays, `none` = closed) moves by
+specification steps (`SpecRun`/`SpecStep` in `Lemmas/FilePoolHistory.lean`) that produce exactly the
+model's outputs:
+* `NewFile`: a new entry `ByteFile.create holeSource.read size`;
+* `ReadAt`: without read faults exactly `ByteFile.read` (bytes and `io.EOF`); with read faults a
+  prefix of those bytes; never a panic; nothing changes;
+* `WriteAt`, every oracle: count `n ≤ |p|`, `n = |p|` when no error, the entry becomes
+  `ByteFile.write b off (p.take n)` (also on failure: exactly the bytes reported written), no panic;
+* `Truncate`: on success `ByteFile.truncate b size`; on failure the size and all bytes below the
+  requested size are unchanged and the entry is still well-formed (zeros beyond its size);
+* `Len`: the size; `GetNextRegionOffset` (no seek fault): the least data / hole offset of a data
+  map whose holes read as zero (`SeekOk`; `file_refines_bytes_seek` pins the map to sector
+  granularity); `Close`: the entry becomes closed;
+* negative offsets are refused, operations on closed or unknown ids answer `noFile`; and in
+  every step all *other* entries stay the same byte arrays. -/
+theorem file_refines_bytes (c : Cfg) (hss : 1 ≤ c.ss) (ops : List (Op × Oracle)) (hwf : ∀ x ∈ ops, WFOp x.1) :
+    SpecRun [] ops (outputs (init c) ops) (absFiles (after c ops)) :=
+  spec_run (inv2_init c hss) (inv3_init c hss) ops hwf
+
+/-! ## the hole sources that exist in this repository -/
+
+/-- the model's rendering of `pool.ZeroHoleSource` -/
+def zeroHoleSource : Hole := { tag := 0, g := 1, m := 1, d := 0, salt := 0, limit := 0, eofStyle := false }
+
+/-- it behaves as `hole_source.go` says: reads give null bytes, `Data` seeks give `io.EOF`, `Hole` seeks
+give the offset itself, `Truncate` changes nothing. -/
+theorem zeroHoleSource_behaviour (i s : Nat) :
+    zeroHoleSource.read i = 0 ∧ zeroHoleSource.nextData i = none ∧ zeroHoleSource.nextHole i = some i ∧
+      zeroHoleSource.truncate s = zeroHoleSource := by
+  refine ⟨rfl, ?_, ?_, ?_⟩
+  · unfold Hole.nextData zeroHoleSource; simp [findFrom]
+  · unfold Hole.nextHole zeroHoleSource; simp
+  · simp [Hole.truncate, zeroHoleSource]
+
+/-- **The observation of `notes/findings/C15-hole-source-beyond-size.md` cannot occur with the hole
+sources used in this repository.**  The only hole source any caller passes to `NewFile`
+(`pkg/filesystem/virtual/in_memory_prepopulated_directory.go`; the other callers forward their
+argument) is `pool.ZeroHoleSource`, and `NewFile(ZeroHoleSource, size)` is well-formed for every
+size — so every history that only uses it satisfies the hypothesis of `file_refines_bytes`. -/
+theorem zeroHoleSource_wellformed (ops : List (Op × Oracle))
+    (hz : ∀ x ∈ ops, ∀ hole size, x.1 = .new hole size → hole = zeroHoleSource) : ∀ x ∈ ops, WFOp x.1 := by
+  intro x hx
+  have key : ∀ op, x.1 = op → WFOp op := by
+    intro op hop
+    cases op with
+    | new hole size =>
+      have := hz x hx hole size hop
+      subst this
+      exact Nat.zero_le _
+    | read _ _ _ => trivial
+    | write _ _ _ => trivial
+    | trunc _ _ => trivial
+    | seek _ _ _ => trivial
+    | len _ => trivial
+    | close _ => trivial
+  exact key x.1 rfl
+
+def obsHole : Hole := { tag := 1, g := 1, m := 1, d := 1, salt := 5, limit := 100, eofStyle := false }
+
+def obsHist : List (Op × Oracle) :=
+  [(.new obsHole 4, {}), (.write 0 0 [170], { answers := [.range 1 1] }), (.trunc 0 2, {}), (.trunc 0 8, {})]
+
+/-- ... and the hypothesis is needed: with a hole source that has data beyond the initial size
+(here: data up to offset 100 under a file of size 4), after writing one byte, shrinking to 2 and
+growing to 8, byte 4 reads the old hole-source contents (35), where the byte-array specification
+(`ByteFile.shrink_then_grow`) demands 0. -/
+theorem wellformedness_is_needed :
+    ¬ WFOp (.new obsHole 4) ∧ (step (after ⟨8, 2⟩ obsHist) (.read 0 4 1) ({} : Oracle)).2 = .read [35] none := by
+  refine ⟨?_, rfl⟩
+  show ¬ (100 ≤ 4)
+  omega
+
 /-! ## Non-vacuity: a concrete history meeting the hypotheses used above
 
 Two files over a non-zero hole source on a 4-sector device with 2-byte sectors: a fragmented
@@ -408,6 +487,11 @@ example : (step (after ⟨2, 4⟩ exHist) (.seek 0 0 false) ({} : Oracle)).2 = .
 /-- hypothesis `hclosed` of `all_closed_nothing_allocated` -/
 example : ∀ f ∈ (after ⟨2, 4⟩ (exHist ++ [(.close 0, ({} : Oracle)),
     (.close 1, { faults := { hc := true } })])).files, f.closed = true := by decide
+/-- `SpecStep` is not vacuous: a wrong `Len` answer is not a specification step -/
+example : ∀ s', ¬ SpecStep [some ⟨2, fun _ => 0⟩] (.len 0) ({} : Oracle) (.len 5) s' := by
+  intro s' h
+  unfold SpecStep at h
+  simp at h
 /-- hypothesis `hr` of `new_sectors_fully_written` -/
 example : (writeToNewSectors ⟨2, 4⟩ exHole ((after ⟨2, 4⟩ exHist).env { answers := [.range 3 2] })
     [5, 6, 7] 4 1).2 = .ok (3, 3, 2) := rfl
